@@ -521,3 +521,158 @@ package participle
 //@   requires m.l != nil
 //@   ensures result1 == nil ==> typeis(result0, *mappingLexer) && result0.(*mappingLexer).mapper == m.mapper && result0.(*mappingLexer).Lexer != nil
 //@   before call Definition.Lex#1: assert arg1 == filename && arg2 == r
+
+// ---------------------------------------------------------------------------------------------
+// grammar.go, struct.go, visit.go (C19)
+// ---------------------------------------------------------------------------------------------
+
+// wfc(n): well-formedness as the tag parser establishes it: every child slot of n is non-nil and wfc;
+// production nodes (*strct) count as atoms because they are registered before their body is parsed
+// (cyclic grammars). Once Build succeeds every registered *strct has a non-nil wfc body (parseType sets it
+// before returning), which is what wf (above) then unfolds through; that last step is a paper lemma.
+//@ spec fn wfc(n node) bool = uf("node_wfc", "Bool", n)
+//@ lemma wfcLeaf(n node)
+//@   axiom
+//@   requires typeis(n, *reference) || typeis(n, *literal) || typeis(n, *parseable) || typeis(n, *custom) || typeis(n, *strct) || typeis(n, *union)
+//@   ensures wfc(n)
+//@ lemma wfcNegation(n *negation)
+//@   axiom
+//@   requires n != nil && n.node != nil && wfc(n.node)
+//@   ensures wfc(iface(n))
+//@ lemma wfcCapture(c *capture)
+//@   axiom
+//@   requires c != nil && c.node != nil && wfc(c.node)
+//@   ensures wfc(iface(c))
+//@ lemma wfcGroup(g *group)
+//@   axiom
+//@   requires g != nil && g.expr != nil && wfc(g.expr)
+//@   ensures wfc(iface(g))
+//@ lemma wfcLookahead(l *lookaheadGroup)
+//@   axiom
+//@   requires l != nil && l.expr != nil && wfc(l.expr)
+//@   ensures wfc(iface(l))
+//@ lemma wfcDisjunction(d *disjunction)
+//@   axiom
+//@   requires d != nil && forall(k, 0, len(d.nodes), d.nodes[k] != nil && wfc(d.nodes[k]))
+//@   ensures wfc(iface(d))
+// seqOK(s): every cell of the list starting at s holds a non-nil wfc node.
+//@ spec fn seqOK(s *sequence) bool = uf("seq_ok", "Bool", s)
+//@ lemma seqOKLast(s *sequence)
+//@   axiom
+//@   requires s != nil && s.node != nil && wfc(s.node) && s.next == nil
+//@   ensures seqOK(s) && wfc(iface(s))
+
+// The struct-tag lexer (struct.go): assumed contracts; its own index expressions are covered by GetField below.
+//@ func (*structLexer).Peek
+//@   trusted
+//@   ensures result0 != nil
+//@ func (*structLexer).Next
+//@   trusted
+//@   ensures result0 != nil
+//@ func (*structLexer).Field
+//@   trusted
+//@   pure
+
+//@ func indirectType
+//@   trusted
+//@   pure
+//@   ensures result != nil
+
+//@ func (*generatorContext).parseNegation [C19]
+//@   requires slexer != nil
+//@   ensures result1 == nil ==> result0 != nil && wfc(result0)
+//@   use wfcNegation(result0.(*negation)) at exit
+
+//@ func (*generatorContext).parseModifier [C19]
+//@   requires slexer != nil && (expr != nil ==> wfc(expr))
+//@   ensures result1 == nil && expr != nil ==> result0 != nil && wfc(result0)
+//@   ensures result1 == nil && expr == nil ==> result0 == nil
+//@   use wfcGroup(result0.(*group)) at exit
+
+//@ func (*generatorContext).parseTermNoModifiers [C19]
+//@   requires slexer != nil
+//@   ensures result1 == nil && result0 != nil ==> wfc(result0)
+
+//@ func (*generatorContext).parseTerm [C19]
+//@   requires slexer != nil
+//@   ensures result1 == nil && result0 != nil ==> wfc(result0)
+
+// A sequence is built cell by cell at its tail. lseg(h, c): every cell from h up to (not including) c holds a
+// non-nil wfc term and links to the next one. The three axioms are its definition; cells already linked
+// are never written again.
+//@ spec fn lseg(h *sequence, c *sequence) bool = uf("seq_lseg", "Bool", h, c)
+//@ lemma lsegRefl(h *sequence)
+//@   axiom
+//@   ensures lseg(h, h)
+//@ lemma lsegSnoc(h *sequence, c *sequence)
+//@   axiom
+//@   requires lseg(h, c) && c != nil && c.node != nil && wfc(c.node) && c.next != nil
+//@   ensures lseg(h, c.next)
+//@ lemma lsegClose(h *sequence, c *sequence)
+//@   axiom
+//@   requires lseg(h, c) && c != nil && c.node != nil && wfc(c.node) && c.next == nil
+//@   ensures wfc(iface(h))
+//@ func (*generatorContext).parseSequence [C19]
+//@   requires slexer != nil
+//@   ensures result1 == nil && result0 != nil ==> wfc(result0)
+//@   use lsegRefl(head) at loop 1 entry
+//@   use lsegSnoc(head, prev(cursor)) at loop 1 end
+//@   use lsegClose(head, cursor) at loop 1
+//@   loop 1 invariant head != nil && cursor != nil && fresh(head) && fresh(cursor) && cursor.next == nil && lseg(head, cursor)
+//@   loop 1 invariant (cursor.node == nil ==> cursor == head) && (cursor.node != nil ==> wfc(cursor.node))
+//@   loop 1 invariant head.node != nil ==> wfc(head.node)
+//@   loop 1 nonterminating-ok
+
+//@ func (*generatorContext).parseDisjunction [C19]
+//@   requires slexer != nil
+//@   ensures result1 == nil ==> result0 != nil && wfc(result0)
+//@   requires @assumed g.Definition != nil
+//@   use wfcDisjunction(result0.(*disjunction)) at exit
+//@   loop 1 invariant out != nil && fresh(out) && forall(k, 0, len(out.nodes), out.nodes[k] != nil && wfc(out.nodes[k]))
+//@   loop 1 nonterminating-ok
+
+//@ func (*generatorContext).parseCapture [C19]
+//@   requires slexer != nil
+//@   ensures result1 == nil ==> result0 != nil && wfc(result0)
+//@   use wfcCapture(result0.(*capture)) at exit
+
+//@ func (*generatorContext).parseReference [C19]
+//@   requires slexer != nil
+//@   requires @assumed g.Definition != nil
+//@   ensures result1 == nil ==> result0 != nil && wfc(result0)
+//@   use wfcLeaf(result0) at exit
+
+//@ func (*generatorContext).parseLiteral [C19]
+//@   requires lex != nil
+//@   requires @assumed g.Definition != nil
+//@   ensures result1 == nil ==> result0 != nil && wfc(result0)
+//@   use wfcLeaf(result0) at exit
+
+//@ func (*generatorContext).parseOptional [C19]
+//@   requires slexer != nil
+//@   ensures result1 == nil ==> result0 != nil && wfc(result0)
+//@   use wfcGroup(result0.(*group)) at exit
+
+//@ func (*generatorContext).parseRepetition [C19]
+//@   requires slexer != nil
+//@   ensures result1 == nil ==> result0 != nil && wfc(result0)
+//@   use wfcGroup(result0.(*group)) at exit
+
+//@ func (*generatorContext).parseGroup [C19]
+//@   requires slexer != nil
+//@   ensures result1 == nil ==> result0 != nil && wfc(result0)
+//@   use wfcGroup(result0.(*group)) at exit
+
+//@ func (*generatorContext).subparseLookaheadGroup [C19]
+//@   requires slexer != nil
+//@   ensures result1 == nil ==> result0 != nil && wfc(result0)
+//@   use wfcLookahead(result0.(*lookaheadGroup)) at exit
+
+//@ func (*generatorContext).subparseGroup [C19]
+//@   requires slexer != nil
+//@   ensures result1 == nil ==> result0 != nil && wfc(result0)
+
+// parseType returns the (possibly still in-progress, see wfc) node for a Go type.
+//@ func (*generatorContext).parseType
+//@   trusted
+//@   ensures returnedError == nil ==> result0 != nil && wfc(result0)
